@@ -135,7 +135,7 @@ def main():
         """one correspondence sample at the simulation's current state and parameters"""
         K, C, Mm, F = simu.Get_K_C_M_F(pt)
         n = K.shape[0]
-        if n > 24 or len(lines) >= (80 if args.tier == "quick" else 240):
+        if n > 24 or not (len(lines) < (80 if args.tier == "quick" else 240)):
             return
         un, vn, an = simu._Get_u_n(pt), simu._Get_v_n(pt), simu._Get_a_n(pt)
         x = np.array([dy(rng, -2, 2) for _ in range(n)])
@@ -159,12 +159,12 @@ def main():
             if (got is None) != (want is None) and not (algo == "parabolic" and nm == "a_t"):
                 if not (algo == "euler_explicit" and nm == "a_t"):
                     res.fail(f"algo={algo} evaluation-point {nm}", f"{algo}: {nm} is {'None' if got is None else 'set'} but the documented scheme says otherwise", ident)
-            elif got is not None and want is not None and np.abs(np.asarray(got) - want).max() > 1e-9 * sc:
+            elif got is not None and want is not None and not (np.abs(np.asarray(got) - want).max() <= 1e-9 * sc):
                 res.fail(f"algo={algo} evaluation-point {nm}",
                          f"{algo} ({p}): _Solver_Evaluate_u_v_a_for_time_scheme gives {nm} differing from the documented evaluation-point state by {np.abs(np.asarray(got) - want).max():.3e}", ident)
         su = spec_update(algo, P, un, vn, an_, x)
         for nm, got, want in zip(("u", "v", "a"), real_upd, su):
-            if got is not None and want is not None and np.abs(np.asarray(got) - want).max() > 1e-9 * sc:
+            if got is not None and want is not None and not (np.abs(np.asarray(got) - want).max() <= 1e-9 * sc):
                 res.fail(f"algo={algo} corrector {nm}", f"{algo} ({p}): _Solver_Update_solutions gives {nm} differing from the documented update by {np.abs(np.asarray(got) - want).max():.3e}", ident)
         delta = np.array([dy(rng, -1, 1) for _ in range(n)])
         ev2 = simu._Solver_Evaluate_u_v_a_for_time_scheme(pt, (x + delta).copy())
@@ -172,7 +172,7 @@ def main():
             if e1 is None or e2 is None:
                 continue
             res.case((algo, "coef-derivative", nm, len(lines)))
-            if np.abs((np.asarray(e2) - np.asarray(e1)) - c * delta).max() > 1e-9 * sc * (1 + abs(c)):
+            if not (np.abs((np.asarray(e2) - np.asarray(e1)) - c * delta).max() <= 1e-9 * sc * (1 + abs(c))):
                 res.fail(f"algo={algo} coef-is-derivative {nm}",
                          f"{algo} ({p}): d{nm}/du_np1 = {c} according to _Solver_Get_K_C_M_coefs_for_time_scheme, but {nm}(x+d)-{nm}(x) != coef*d (max dev {np.abs((np.asarray(e2) - np.asarray(e1)) - c * delta).max():.3e})", ident)
         for what, real in (("coefs", real_coefs), ("eval", real_eval), ("update", real_upd), ("rhs", real_rhs)):
@@ -242,7 +242,7 @@ def main():
                 simu.Set_Rayleigh_Damping_Coefs(*cMK)
                 Cnew = simu.Get_K_C_M_F(pt)[1].toarray()
                 res.case((seq, step, "rayleigh-change"))
-                if np.abs(Cnew - (cMK[0] * Md + cMK[1] * Kd)).max() > 1e-10 * (1 + np.abs(Kd).max()):
+                if not (np.abs(Cnew - (cMK[0] * Md + cMK[1] * Kd)).max() <= 1e-10 * (1 + np.abs(Kd).max())):
                     res.fail("damping matrix after Set_Rayleigh_Damping_Coefs", f"after Set_Rayleigh_Damping_Coefs{cMK} between two steps, C differs from coefM M + coefK K by {np.abs(Cnew - (cMK[0] * Md + cMK[1] * Kd)).max():.3e}",
                              dict(sequence=seq, step=step, coefs=list(cMK)))
                 Cd = cMK[0] * Md + cMK[1] * Kd
@@ -283,24 +283,217 @@ def main():
                 r = r + Md @ at
             fscale = 1 + np.abs(Kd).max() * np.abs(ut).max() + np.abs(Cd).max() * np.abs(vt).max() + (np.abs(Md).max() * (np.abs(at).max() if at is not None else 0)) + np.abs(fN + Fd).max()
             res.case((seq, step, algo, "eom"))
-            if np.abs(r[free]).max() > 1e-8 * fscale:
+            if not (np.abs(r[free]).max() <= 1e-8 * fscale):
                 res.fail(f"algo={algo} equation-of-motion", f"{algo} ({p}): residual of K u_t + C v_t + M a_t - F on free dofs = {np.abs(r[free]).max():.3e} (scale {fscale:.3e})", ident)
             # (iv) energy
             if undamped:
                 E0 = 0.5 * vn @ Md @ vn + 0.5 * un @ Kd @ un
                 E1 = 0.5 * v1 @ Md @ v1 + 0.5 * u1 @ Kd @ u1
                 res.case((seq, step, algo, "energy"))
-                if algo in ("newmark", "midpoint") and abs(E1 - E0) > 1e-9 * (1 + abs(E0)):
+                if algo in ("newmark", "midpoint") and not (abs(E1 - E0) <= 1e-9 * (1 + abs(E0))):
                     # Newmark conservation needs M a_n + K u_n = 0 on free dofs: true after a newmark / consistent start
                     prev_ok = np.abs((Md @ an_ + Kd @ un)[free]).max() < 1e-8 * fscale
                     if algo == "midpoint" or prev_ok:
                         res.fail(f"algo={algo} energy-conservation", f"{algo} dt={p['dt']}: energy {E0!r} -> {E1!r} in undamped free motion", ident)
-                if algo == "euler_implicit" and E1 > E0 * (1 + 1e-10) + 1e-12:
+                if algo == "euler_implicit" and not (E1 <= E0 * (1 + 1e-10) + 1e-12):
                     res.fail("algo=euler_implicit energy-increase", f"backward Euler dt={p['dt']}: energy increased {E0!r} -> {E1!r}", ident)
                 Ecode = simu.Calc_Energy(Mm, v1) + simu.Calc_Energy(K, u1)
-                if abs(Ecode - E1) > 1e-10 * (1 + abs(E1)):
+                if not (abs(Ecode - E1) <= 1e-10 * (1 + abs(E1))):
                     res.fail("Calc_Energy", f"Calc_Energy gives {Ecode!r}, 1/2 x'Ax = {E1!r}", ident)
         res.sample(dict(sequence=seq, sim="Thermal" if parabolic else "Elastic", n_dofs=int(n), steps=history[:4]))
+
+    # ---------------- step sequences with constraints that move, and several simulations stepped in turn ----------------
+    def start_state(n, shift):
+        """replayable non-equilibrium prior state (dyadic numbers in [-1/2, 1/2))"""
+        i = np.arange(n)
+        return (((7 * i + shift) % 16) - 8) / 16.0, (((5 * i + 3 + shift) % 16) - 8) / 16.0, (((3 * i + 1 + 2 * shift) % 16) - 8) / 16.0
+
+    START = "u0[i]=((7i+s)%16-8)/16, v0[i]=((5i+3+s)%16-8)/16, a0[i]=((3i+1+2s)%16-8)/16"
+
+    def checked_step(tag, simu, algo, p, parabolic, ident, constrained=None):
+        """one Solve() of `simu`, checked against the documented scheme with the parameters `p` given to THAT simulation:
+        update relations, equation of motion on the free dofs (matrices read back dense), prescribed values.
+        constrained = (dofs, values) as prescribed by the caller (independent of the library's bookkeeping)."""
+        pt = simu.problemType
+        P = effective(algo, p)
+        un, vn = simu._Get_u_n(pt).copy(), simu._Get_v_n(pt).copy()
+        an = None if parabolic else simu._Get_a_n(pt).copy()
+        n = un.size
+        an_ = np.zeros(n) if an is None else an
+        try:
+            simu.Solve()
+            u1, v1 = simu._Get_u_n(pt).copy(), simu._Get_v_n(pt).copy()
+            a1 = None if parabolic else simu._Get_a_n(pt).copy()
+            K, C, Mm, F = simu.Get_K_C_M_F(pt)
+            Kd, Cd, Md = K.toarray(), C.toarray(), Mm.toarray()
+            Fd = np.asarray(F.todense()).ravel()
+            bn = simu.Bc_vector_Neumann(pt)
+            fN = np.asarray(bn.todense()).ravel() if hasattr(bn, "todense") else np.asarray(bn).ravel()
+            dofs_c = np.asarray(simu.Bc_dofs_Dirichlet(pt), int) if constrained is None else np.asarray(constrained[0], int)
+        except Exception as ex:  # noqa: BLE001
+            res.fail(f"{tag} algo={algo} step raises", f"{algo} ({p}): Solve() raises {type(ex).__name__}: {str(ex)[:200]}", ident)
+            return False
+        free = np.setdiff1d(np.arange(n), dofs_c)
+        x = a1 if algo == "euler_explicit" else u1
+        scale = 1 + max(np.abs(u1).max(), np.abs(v1).max() * P[0], (0 if a1 is None else np.abs(a1).max()) * P[0] ** 2)
+        ok = True
+        su, sv, sa = spec_update(algo, P, un, vn, an_, x)
+        res.case((tag, ident.get("sequence"), ident.get("sim"), ident.get("step"), algo, "update"))
+        eu, ev = rel(u1, su, scale), rel(v1 * P[0], sv * P[0], scale)
+        ea = rel(a1 * P[0] ** 2, sa * P[0] ** 2, scale) if (sa is not None and a1 is not None) else 0.0
+        if not (eu <= TOL and ev <= TOL and ea <= TOL):
+            ok = False
+            res.fail(f"{tag} algo={algo} update-relations", f"{algo} ({p}): u,v,a returned by Solve() violate the documented update relations with the parameters set on this simulation "
+                     f"(max deviations u {eu:.2e}, v*dt {ev:.2e}, a*dt^2 {ea:.2e})", ident)
+        ut, vt, at = spec_eval(algo, P, un, vn, an_, x)
+        r = Kd @ ut + Cd @ vt - (fN + Fd)
+        if algo == "euler_explicit":
+            r = r + Md @ x
+        elif at is not None and not parabolic:
+            r = r + Md @ at
+        fscale = 1 + np.abs(Kd).max() * np.abs(ut).max() + np.abs(Cd).max() * np.abs(vt).max() + (np.abs(Md).max() * (np.abs(at).max() if at is not None else 0)) + np.abs(fN + Fd).max()
+        res.case((tag, ident.get("sequence"), ident.get("sim"), ident.get("step"), algo, "eom"))
+        if free.size and not (np.abs(r[free]).max() <= 1e-8 * fscale):
+            ok = False
+            res.fail(f"{tag} algo={algo} equation-of-motion", f"{algo} ({p}): residual of K u_t + C v_t + M a_t - F on the free dofs = {np.abs(r[free]).max():.3e} (scale {fscale:.3e})", ident)
+        if constrained is not None and algo != "euler_explicit":
+            res.case((tag, ident.get("sequence"), ident.get("step"), algo, "prescribed"))
+            if not (np.abs(u1[dofs_c] - np.asarray(constrained[1], float)).max() <= TOL * scale):
+                ok = False
+                res.fail(f"{tag} algo={algo} prescribed-values", f"{algo} ({p}): the constrained dofs do not carry the prescribed values after the step "
+                         f"(max deviation {np.abs(u1[dofs_c] - np.asarray(constrained[1], float)).max():.3e})", ident)
+        return ok
+
+    # (C) the set of constrained dofs, the prescribed values and the load change from one step to the next while the
+    #     scheme and its parameters stay the same for a few steps (a support that moves to the opposite edge keeps the
+    #     number of unknowns); every step must still satisfy its update rule and the equation of motion on ITS free dofs
+    nmov = 3 if args.tier == "quick" else 9
+    for seq in range(nmov):
+        parabolic = (seq % 3 == 2)
+        et = rng.choice(["TRI3", "QUAD4"])
+        mesh = M.mesh_2d(et, a=2.0, b=1.0, h=0.5)
+        try:
+            if parabolic:
+                simu = Simulations.Thermal(mesh, Models.Thermal(k=3.0, c=2.0))
+                simu.rho = 1.5
+            else:
+                simu = Simulations.Elastic(mesh, Models.Elastic.Isotropic(2, E=8.0, v=0.25, planeStress=True, thickness=0.75))
+                simu.rho = 2.0
+                cMK = (rng.choice([0.0, 0.25]), rng.choice([0.0, 0.125]))
+                simu.Set_Rayleigh_Damping_Coefs(*cMK)
+            if seq % 2 == 1:
+                simu.solver = "scipy"
+            pt = simu.problemType
+            unknowns = simu.Get_unknowns()
+            nd = len(unknowns)
+            edges = dict(left=mesh.Nodes_Conditions(lambda x, y, z: x == 0), right=mesh.Nodes_Conditions(lambda x, y, z: x == 2.0),
+                         bottom=mesh.Nodes_Conditions(lambda x, y, z: y == 0), top=mesh.Nodes_Conditions(lambda x, y, z: y == 1.0))
+            opposite = dict(left="right", right="left", bottom="top", top="bottom")
+            n = mesh.Nn * nd
+            u0, v0, a0 = start_state(n, seq)
+            simu._Set_solutions(pt, u0.copy(), v0.copy(), None if parabolic else a0.copy())
+        except Exception as ex:  # noqa: BLE001
+            res.fail("moving-constraints setup raises", f"{type(ex).__name__}: {str(ex)[:200]}", dict(sequence=seq, elemType=et))
+            continue
+        history = []
+        run_len = 3
+        algo, p, support = None, None, None
+        for step in range(2 * run_len):
+            if step % run_len == 0:
+                algo = "parabolic" if parabolic else rng.choice(HYPER)
+                p = draw_params(rng, algo)
+                set_algo(simu, algo, p)
+                support = rng.choice(sorted(edges))
+            elif step % run_len == 1:
+                support = opposite[support]  # same number of constrained dofs, other dofs
+            else:
+                support = rng.choice([e for e in sorted(edges) if e not in (support, opposite[support])])
+                if seq % 2 == 1:
+                    set_algo(simu, algo, p)  # same scheme and parameters set again
+            dirs = list(unknowns) if (parabolic or rng.random() < 0.5) else [rng.choice(list(unknowns))]
+            vals = [dy(rng, -1, 1) for _ in dirs]
+            load = dy(rng, -2, 2)
+            loadDir = rng.choice(list(unknowns))
+            history.append(dict(algo=algo, **p, support=support, dirs=dirs, values=vals, loaded=opposite[support], load=load, loadDir=loadDir))
+            ident = dict(scenario="moving-constraints", sequence=seq, step=step, sim="Thermal" if parabolic else "Elastic", elemType=et,
+                         mesh="rectangle 2x1, h=0.5", solver=str(simu.solver), rayleigh=None if parabolic else list(cMK), start=START + f", s={seq}", history=list(history))
+            res.count("moving-constraints:" + algo)
+            try:
+                simu.Bc_Init()
+                simu.add_dirichlet(edges[support], vals, dirs)
+                simu.add_neumann(edges[opposite[support]], [load], [loadDir])
+            except Exception as ex:  # noqa: BLE001
+                res.fail("moving-constraints setup raises", f"{type(ex).__name__}: {str(ex)[:200]}", ident)
+                break
+            dofs = np.concatenate([np.asarray(edges[support], int) * nd + list(unknowns).index(d) for d in dirs])
+            dvals = np.concatenate([np.full(len(edges[support]), float(v)) for v in vals])
+            if not checked_step("moving-constraints", simu, algo, p, parabolic, ident, (dofs, dvals)):
+                break
+        res.sample(dict(scenario="moving-constraints", sequence=seq, n_dofs=int(n), steps=history[:3]))
+
+    # (D) several simulations alive at the same time (same mesh and model object), each given its own scheme parameters
+    #     before any of them is stepped, then stepped in turn; one of them is given new parameters half-way.
+    #     Each step is checked with the parameters set on the simulation that made it.
+    ngroups = 2 if args.tier == "quick" else 6
+    for grp in range(ngroups):
+        parabolic = (grp % 2 == 1)
+        et = rng.choice(["TRI3", "QUAD4"])
+        mesh = M.mesh_2d(et, a=2.0, b=1.0, h=0.5)
+        left = mesh.Nodes_Conditions(lambda x, y, z: x == 0)
+        right = mesh.Nodes_Conditions(lambda x, y, z: x == 2.0)
+        model = Models.Thermal(k=3.0, c=2.0) if parabolic else Models.Elastic.Isotropic(2, E=8.0, v=0.25, planeStress=True, thickness=1.0)
+        nsim = 3
+        # the same algorithm for the first two simulations (different parameters), any algorithm for the third
+        first = "parabolic" if parabolic else rng.choice(HYPER)
+        algos_g = [first, first, "parabolic" if parabolic else rng.choice(HYPER)]
+        params_g = []
+        for a_ in algos_g:
+            q = draw_params(rng, a_)
+            while any(q == o or q["dt"] == o["dt"] for o in params_g):
+                q = draw_params(rng, a_)
+            params_g.append(q)
+        sims = []
+        try:
+            for k in range(nsim):
+                s = Simulations.Thermal(mesh, model) if parabolic else Simulations.Elastic(mesh, model)
+                s.rho = 1.5
+                if not parabolic:
+                    s.Set_Rayleigh_Damping_Coefs(0.25, 0.125)
+                unknowns = s.Get_unknowns()
+                s.add_dirichlet(left, [0.25 * (k + 1)] * len(unknowns), unknowns)
+                s.add_neumann(right, [-1.0 + 0.5 * k], [unknowns[-1]])
+                n = mesh.Nn * len(unknowns)
+                u0, v0, a0 = start_state(n, grp + k)
+                s._Set_solutions(s.problemType, u0.copy(), v0.copy(), None if parabolic else a0.copy())
+                set_algo(s, algos_g[k], params_g[k])
+                sims.append(s)
+        except Exception as ex:  # noqa: BLE001
+            res.fail("several-simulations setup raises", f"{type(ex).__name__}: {str(ex)[:200]}", dict(group=grp, elemType=et, algos=algos_g, params=params_g))
+            continue
+        events = []
+        stop = False
+        for rnd in range(4):
+            if rnd == 2:
+                # new parameters for the second simulation only; the others keep theirs
+                q = draw_params(rng, algos_g[1])
+                while any(q["dt"] == o["dt"] for o in params_g):
+                    q = draw_params(rng, algos_g[1])
+                params_g[1] = q
+                set_algo(sims[1], algos_g[1], q)
+                events.append(dict(round=rnd, sim=1, set=dict(algo=algos_g[1], **q)))
+            for k in range(nsim):
+                ident = dict(scenario="several-simulations", sequence=grp, step=rnd, sim=k, simType="Thermal" if parabolic else "Elastic", elemType=et,
+                             mesh="rectangle 2x1, h=0.5, shared with the model object by the 3 simulations", rayleigh=None if parabolic else [0.25, 0.125],
+                             start=START + ", s=group+sim", dirichlet="left edge, all unknowns = 0.25 (sim+1)", neumann="right edge, last unknown, -1 + 0.5 sim",
+                             configured_before_first_step=[dict(algo=a_, **q_) for a_, q_ in zip(algos_g, params_g)] if not events else None,
+                             algos=algos_g, params_now=[dict(q_) for q_ in params_g], events=list(events), order="round-robin sim 0,1,2")
+                res.count("several-simulations:" + algos_g[k])
+                if not checked_step("several-simulations", sims[k], algos_g[k], params_g[k], parabolic, ident):
+                    stop = True
+                    break
+            if stop:
+                break
+        res.sample(dict(scenario="several-simulations", group=grp, algos=algos_g, params=params_g))
 
     # ---------------- correspondence with the Lean definitions ----------------
     answers = driver.ask(lines)
